@@ -19,6 +19,8 @@ THEOREMS = [
     "Ts.Stage.C09_witness_alias_prefix",
     "Ts.Stage.C09_no_staging_after_handover",
     "Ts.Stage.C09_handover_stable",
+    "Ts.Stage.C09_history_mutation_invisible",
+    "Ts.Stage.C09_witness_pooled_staging",
 ]
 BUDGET_S = (150, 900)
 RULE = ("(a) real Snapshot.async_take of random nested states (all dtypes/layouts, objects, primitives) on in-memory storage with "
@@ -233,6 +235,33 @@ def _overlap_case(ctx: Ctx, case: Dict[str, Any], suite: str = "async_overlap"):
         if d is not None:
             ctx.fail("mutation-visible", f"two overlapping async snapshots: the {name} one does not restore the state at the time of its call",
                      dict(case, overlap=True), {"snapshot": name, "diff": d}, suite=suite)
+    # model tie: the same history in the Lean history model (take, mutate, take, mutate, then every background write)
+    if ctx.driver:
+        import torch
+        from torchsnapshot.flatten import flatten
+        BPD = {"float64", "float32", "float16", "bfloat16", "int64", "int32", "int16", "int8", "uint8", "bool"}
+
+        def tensors(tree_):
+            _, flat = flatten(tree_, prefix="s")
+            return [(p, v) for p, v in flat.items() if isinstance(v, torch.Tensor) and gen.DT_NAME.get(v.dtype) in BPD and v.numel() > 0]
+        t0, t1, t2 = tensors(v0), tensors(v1), tensors(gen.build_tree(case["state"]) if False else v1)
+        if t0 and [p for p, _ in t0] == [p for p, _ in t1]:
+            leaves = [{"addr": i, "ser": "buffer_protocol", "contig": bool(v.is_contiguous())} for i, (_, v) in enumerate(t0)]
+            mem = lambda ts: [list(gen.tensor_bytes(v)) for _, v in ts]
+            ops = [{"take": leaves}, {"mutate": mem(t1)}, {"take": leaves}, {"mutate": [[0] * len(b) for b in mem(t1)]}]
+            ops += [{"write": [1, i]} for i in range(len(leaves))] + [{"write": [0, i]} for i in range(len(leaves))]
+            rep = ctx.driver.call({"op": "stage_history", "mem0": mem(t0), "ops": ops})
+            got = {(w["snap"], w["i"]): w["bytes"] for w in rep.get("written", [])}
+            for snap_i, loaded in ((0, l1), (1, l2)):
+                lt = dict(tensors(loaded)) if isinstance(loaded, dict) else {}
+                for i, (p, _) in enumerate(t0):
+                    real = list(gen.tensor_bytes(lt[p])) if p in lt else None
+                    if real != got.get((snap_i, i)):
+                        ctx.disagree("stage_history", dict(case, overlap=True), {"snapshot": snap_i, "path": p, "restored": (real or [])[:16]},
+                                     {"snapshot": snap_i, "model_written": (got.get((snap_i, i)) or [])[:16]},
+                                     "restored bytes of an overlapping async snapshot differ from the history model")
+                        break
+            ctx.count("overlap.model_tied")
     ctx.count("overlap.cases")
     ctx.case(suite, {"k": k, "knobs": case["knobs"], "state": gen.short(case["state"])}, nontrivial=True, key=["overlap", case])
 
